@@ -847,7 +847,13 @@ pub struct GenState {
 /// factory then pushes an update to every pair trading it), a configuration update, a pair migration
 pub fn gen_admin(w: &World, s: &mut Src, _prof: &Profile) -> Step {
     let owner = w.owner.to_string();
-    let msg = match s.weighted(&[7, 1, 2, 1]) {
+    let msg = match s.weighted(&[7, 1, 2, 1, 1]) {
+        // the owner addresses a PAIR directly with the decimals update that only the factory may send
+        4 => {
+            let p = s.idx(w.pairs.len());
+            let denom = w.natives[s.idx(w.natives.len())].clone();
+            return Step { sender: owner, call: Call::Pair { pair: p, msg: PairExec::UpdateNativeTokenDecimals { denom, asset_decimals: [s.below(19) as u8, s.below(19) as u8] } }, funds: vec![] };
+        }
         0 => haloswap::factory::ExecuteMsg::AddNativeTokenDecimals { denom: w.natives[s.idx(w.natives.len())].clone(), decimals: s.below(19) as u8 },
         // the default pair code changes to the second stored copy of the pair code (or back)
         1 => haloswap::factory::ExecuteMsg::UpdateConfig { owner: None, token_code_id: Some(w.codes.cw20), pair_code_id: Some(if s.bool() { w.codes.pair } else { w.codes.pair_alt }) },
